@@ -203,8 +203,8 @@ def run_group(item):
                 out['api'].append(record.abstract(cf, fobs, fres, ftabs, 0))      # C04 / C14 envelope of the filter run
         # filter_pair of the four filters on every pair of the two tables (C04 at the pair level: the pair-level
         # token order differs from the table-level one; for edit distance the tokens are bags)
-        if g.get('validate') and km is None and g['src'].startswith('random') and (ed or gid % 3 == 0):
-            for f in ('SIZE', 'PREFIX', 'POSITION', 'SUFFIX'):
+        if g.get('validate') and km is None and g['src'].startswith('random') and (ed or gid % 3 == 0 or meas == 'OVERLAP'):
+            for f in ('SIZE', 'PREFIX', 'POSITION', 'SUFFIX') + (('OVERLAP',) if meas == 'OVERLAP' else ()):
                 cp = dict(base, kind='ftab', api=f + '.filter_pair', filt=f, op='<=' if ed else '>=', sc=0, n_jobs=1,
                           am=0, lout=None, rout=None, tok=dict(base['tok'], rs=0 if ed else 1))
                 pobs, pres, _, ptabs = record.execute_filter_pair(cp)
